@@ -302,8 +302,9 @@ def adc(img, gain, saturation_capacity=None, warn_saturate=False, dtype=None):
             if np.any(img > saturation_capacity):
                 warnings.warn('Frame has saturated pixels.')
 
-        # Apply the saturation limit (on a copy: the caller's frame is left alone)
-        img = img.copy()
+        # Apply the saturation limit (on a floating point copy: the caller's frame is
+        # left alone and the capacity is not cast to the dtype of the frame)
+        img = img.astype(float)
         img[img > saturation_capacity] = saturation_capacity
 
     # Determine the polynomial order
